@@ -16,11 +16,12 @@ NOT_COVERED = [
     'extension carriage is proved for gathered lists in C16\'s NoRepeat class (out_roundtrip_ext_partial) and for paddings that carry '
     'nothing / are malformed (out_malformed_padding_dropped); lists on which the generator uses its repeat mechanism, and the exact '
     'size clauses of pad/unpad/pad_impl for packets with extensions, are tied differentially (S3) and searched (S4) only',
-    'in-place operation of opus_packet_pad/unpad and the multistream variants (source and destination overlap, OPUS_MOVE '
-    'order): the model reads frames from owned copies; in-place calls are compared byte for byte by the tie and run under ASan',
-    'pad_same_decode (same decoded audio and final range for x and pad x): not a theorem (needs the decoder skeleton of C01); '
-    'checked on the implementation by S4 on a quarter of the pad cases',
-    'opus_int32 / opus_int16 overflow: lengths are unbounded integers in the model (maxlen, new_len < 2^31 assumed)',
+    'in-place operation is proved for opus_packet_unpad / opus_multistream_packet_unpad on valid packets (single-array model with the '
+    'header-then-memmove order, tied byte for byte including the stale bytes after ret); the header bytes of that model are taken from the '
+    'pure emit (they depend on TOC and frame lengths only); pad / multistream pad copy the packet first, so no overlap exists there',
+    'pad_same_decode: only the packet-derived inputs of the decoder skeleton are proved equal (pad_same_decode_partial); equality of '
+    'decoded audio and final range is checked on the implementation by S4 on a quarter of the pad cases',
+    'opus_int32 overflow with extension payloads of about 2 GB and maxlen near INT_MAX (see UNPROVED int_ranges with extensions)',
 ]
 ASSUMPTIONS = ['len / maxlen arguments equal the sizes of the supplied buffers (exact-size heap blocks and guard bytes under ASan)',
                'packets given to cat stay alive and unmodified until the last out call (API contract: the repacketizer borrows pointers)']
@@ -33,18 +34,23 @@ REQUIRED_THEOREMS = [
     'OpusProps.C07.pad_spec', 'OpusProps.C07.pad_rejects', 'OpusProps.C07.unpad_spec', 'OpusProps.C07.unpad_canonical',
     'OpusProps.C07.unpad_idempotent', 'OpusProps.C07.unpad_pad', 'OpusProps.C07.emitted_padding_ext_free', 'OpusProps.C07.ms_unpad_spec', 'OpusProps.C07.ms_pad_spec',
     'OpusProps.C07.out_roundtrip_ext_partial', 'OpusProps.C07.out_malformed_padding_dropped',
+    'OpusProps.C07.unpad_in_place', 'OpusProps.C07.ms_unpad_in_place', 'OpusProps.C07.move_frames_safe',
+    'OpusProps.C07.pad_same_decode_partial', 'OpusProps.C07.int_ranges_noext',
 ]
 UNPROVED = [
-    'pad_same_decode (decoder skeleton calls identical for x and pad x, hence same audio and final range): needs the C01 decoder '
-    'skeleton; only searched on the implementation (S4 decodes x and pad x on a quarter of the pad cases)',
+    'pad_same_decode (full): the decoder skeleton\'s oracle-call log (SILK / CELT / range-decoder calls of C01\'s DecSkel) is identical '
+    'for x and pad x modulo the shift of the frame offsets; pad_same_decode_partial proves that every packet-derived input of the skeleton '
+    'except the frame address is identical (sizes, frame bytes, duration/mode/bandwidth/channels, return value, last_packet_duration); the '
+    'log equality needs a two-run simulation through C01\'s frameLoop (requested from the C01 owner); S4 decodes x and pad x on a quarter '
+    'of the pad cases and compares PCM and final range',
     'out_roundtrip_ext (full): out_roundtrip_ext_partial without the hypothesis NoRepeat, i.e. also when opus_packet_extensions_generate '
     'uses its repeat mechanism (ID 2) for the gathered list; missing only C16\'s generate->parse round trip through repeats '
     '(generate_parse_full, in progress); until then that case is tied (S3) and searched (S4 clause out-extensions)',
-    'in-place safety (P1): packetPad/packetUnpad on one byte array with the copy-then-memmove order equals the pure version — not modelled',
-    'int_ranges: every intermediate fits opus_int32 / the opus_int16 len[] stores are lossless (model uses unbounded Int; sizes <= 1275 and '
-    'nb_frames <= 48 are proved, so sums are < 2^17 whenever maxlen < 2^31)',
-    'byte-string level statements for the multistream variants (ms_unpad_spec / ms_pad_spec are stated on lists of valid packets and their '
-    'Appendix-B serialisation, not on arbitrary byte strings with a rejection clause)',
+    'int_ranges with extensions: tot_size + ext_len + nb_255s + 1 (repacketizer.c:286) is only bounded by about maxlen*(1+1/254); it stays '
+    'inside opus_int32 when maxlen < 2^30, but for maxlen near INT_MAX together with > 2 GB of extension payload the 32-bit sum could wrap '
+    '(not reachable with real buffers; recorded, not proved either way); int_ranges_noext covers the extension-free paths',
+    'byte-string level statements for the multistream variants (ms_unpad_spec / ms_pad_spec / ms_unpad_in_place are stated on lists of valid '
+    'packets and their Appendix-B serialisation, not on arbitrary byte strings with a rejection clause)',
 ]
 
 
@@ -144,8 +150,8 @@ LEVEL_TEXT = ('proof of the Lean transcription of src/repacketizer.c for the ext
               'all op sequences; every emitted packet is the RFC serialisation of a valid packet holding exactly the selected '
               'frames and configuration bits (hence parses back, by the C06 completeness theorem), with exact size accounting '
               '(BUFFER_TOO_SMALL iff minimal size > maxlen, minimal among all valid packets with these frames, <= 1277 per frame); '
-              'pad/unpad specs (exact new_len, canonical, idempotent, never longer).  Tied to the code by differential op '
-              'sequences under ASan/UBSan with exact byte comparison; extension carriage is tie + search only')
+              'pad/unpad specs (exact new_len, canonical, idempotent, never longer); extension carriage for NoRepeat lists (padding reads back to the renumbered per-frame lists), malformed padding dropped; unpad / multistream unpad in place equal the pure model; integer ranges of the extension-free paths.  Tied to the code by differential op '
+              'sequences under ASan/UBSan with exact byte comparison; carriage through the generator\'s repeat mechanism is tie + search only')
 LEVEL_NOTE = ('trusted: Lean kernel; the correspondence harness and line protocol; bytes as naturals < 256; C int as unbounded Int; '
               'borrowed pointers modelled as owned copies (in-place overlap not modelled, compared by the tie)')
 TECHNIQUE = 'Lean 4 theorems (emitted bytes = RFC serialiser spec of a valid packet, composed with C06) + differential correspondence + property search'
